@@ -1029,6 +1029,22 @@ func (p *Printer) callTail(i *Inst) string {
 	if ft.Variadic || ft.Ret.K == Ptr && ft.Ret.Elem.K == Func || noise.FullCallType {
 		tyS = ft.String()
 	}
+	if noise.FnAlias {
+		// the definition spells its own types plainly (an alias that mentions another alias would have to
+		// be defined after it, see KF-C01-nonstruct-named-type-order)
+		saved := noise
+		noise.TypeAlias, noise.VecAlias = nil, false
+		full := ft.String()
+		noise = saved
+		if name, ok := vecAlias["fn:"+full]; ok {
+			tyS = "%" + QuoteName(name)
+		} else if len(vecAlias) < 12 {
+			name := fmt.Sprintf("$fn%d", len(vecAliasDefs))
+			vecAlias["fn:"+full] = name
+			vecAliasDefs = append(vecAliasDefs, fmt.Sprintf("%%%s = type %s", QuoteName(name), full))
+			tyS = "%" + QuoteName(name)
+		}
+	}
 	var args []string
 	for k, a := range i.Args {
 		s := ""
